@@ -204,9 +204,10 @@ def stepOp (st : SeqState) (k : Nat) (t : List String) (implRes : Option String 
               if probe.sec.get s ≠ after.sec.get s then acc.set s unknownTok else acc) after.sec }
         else f
       | some _ =>
-        -- a failed discard may have zeroed any whole cluster of its range
+        -- a failed discard may have zeroed any whole cluster of its range (also clusters a
+        -- failed write may have allocated before)
         if valid then
-          let after := f.discard off len
+          let after := ({ f with own := st.maybeOwn.foldl (fun o g => o.set g true) f.own }).discard off len
           { f with sec := (List.range (f.vsize / 512)).foldl (fun acc s =>
               if after.sec.get s ≠ f.sec.get s then acc.set s unknownTok else acc) f.sec }
         else f
